@@ -163,9 +163,9 @@ theorem rt_call {sc f dt a as} (ha : RT sc a) (hall : ∀ x ∈ a :: as, FullRT 
     obtain ⟨n, rfl⟩ := Nat.exists_eq_add_of_le' (show 3 ≤ F by omega)
     simp only [List.cons_append, List.append_assoc, List.nil_append]
     rw [parseUnary]
-    simp only [show ¬ (Tok.id (cMathName sc dt f) = Tok.p P.minus) by simp,
-      show ¬ (Tok.id (cMathName sc dt f) = Tok.p P.bang) by simp,
-      show ¬ (Tok.id (cMathName sc dt f) = Tok.p P.lpar) by simp, if_false, atomOf]
+    simp only [show ¬ (Tok.id (cMathName sc (a :: as) f) = Tok.p P.minus) by simp,
+      show ¬ (Tok.id (cMathName sc (a :: as) f) = Tok.p P.bang) by simp,
+      show ¬ (Tok.id (cMathName sc (a :: as) f) = Tok.p P.lpar) by simp, if_false, atomOf]
     rw [parsePost]
     simp only [show ¬ (Tok.p P.lpar = Tok.p P.lbrack) by decide, if_false, if_true, nameOf]
     -- the argument list does not start with `)`
